@@ -5,6 +5,8 @@ open Base
 open Index
 open Broadcast
 open Linalg
+open Dtype
+open LinalgDtype
 open Common
 module List = Stdlib.List
 module String = Stdlib.String
@@ -124,3 +126,79 @@ let () =
   tdot_n "tdot_d" (Some default_tensordot_axes) (Some np_default_tensordot_axes);
   tdot_n "tdot_ct" None None;
   register "tdotx_ct" (Hashtbl.find handlers "tdotx")
+
+(* ---------- element types of the operands (stream "dtype") ---------- *)
+let dtype_of = function "i8" -> I8 | "i16" -> I16 | "i32" -> I32 | "i64" -> I64 | "u8" -> U8 | "f32" -> F32 | "f64" -> F64
+  | t -> failwith ("dtype " ^ t)
+let dtype_name = function I8 -> "i8" | I16 -> "i16" | I32 -> "i32" | I64 -> "i64" | U8 -> "u8" | U16 -> "u16" | U32 -> "u32"
+  | U64 -> "u64" | F32 -> "f32" | F64 -> "f64" | Bool -> "bool"
+(* "%.17g" of num/den, den in {1,2,4} *)
+let show_frac num den =
+  let n = int_of_z num and d = int_of_z den in
+  let a = abs n in let q = a / d and r = a mod d in
+  let frac = (match r * 100 / d with 0 -> "" | 25 -> ".25" | 50 -> ".5" | 75 -> ".75" | _ -> failwith "fraction") in
+  (if n < 0 then "-" else "") ^ string_of_int q ^ frac
+let show_typed_view dt den (v : coq_Z view) =
+  let s = v.vshape in
+  let elems = List.map (fun i -> let (n, d) = store dt (v.vat i) den in show_frac n d) (lex_enum s) in
+  "ok " ^ show_list s ^ " ;" ^ (if elems = [] then "" else " " ^ String.concat "," elems)
+  ^ " ; view=" ^ dtype_name dt ^ " eval=" ^ dtype_name dt ^ " evalsame=1"
+let scale_of dt = if is_float dt then z_of_int 2 else z_of_int 1
+
+let () =
+  register "typed" (fun a -> match a with
+    | o :: ta :: tb :: x :: y :: rest ->
+        let op = getS o and ta = dtype_of (getS ta) and tb = dtype_of (getS tb) in
+        let (sa, da) = getA x and (sb, db) = getA y in
+        let fa = accessor sa da and fb = accessor sb db in
+        let den = Z.mul (scale_of ta) (scale_of tb) in
+        let la = len sa and lb = len sb in
+        let none = (Trap, None, RSumProd) in
+        let (m, sp, rt) = (match op with
+          | "matmul" -> (z_matmul_v1 sa sb fa fb, z_np_matmul sa sb fa fb, RMatmul)
+          | "matmulv2" -> (z_matmul_v2 sa sb fa fb, z_np_matmul sa sb fa fb, RSumProd)
+          | "dot" -> (z_dot sa sb fa fb, z_np_dot sa sb fa fb, RSumProd)
+          | "inner" -> (z_inner sa sb fa fb, z_np_inner sa sb fa fb, RSumProd)
+          | "vecdot" -> (z_vecdot sa sb fa fb, z_np_vecdot sa sb fa fb, RSumProd)
+          | "outer" -> (z_outer sa sb fa fb, Some (z_np_outer sa sb fa fb), RProd)
+          | "kron" -> (z_kron sa sb fa fb, Some (z_np_kron sa sb fa fb), RProd)
+          | "tdot" -> let n = int_of_z (getI (List.hd rest)) in
+              if n < 0 || n > la || n > lb then none else
+              let axa = List.init n (fun i -> nat_of_int (la - n + i)) and axb = List.init n nat_of_int in
+              (z_tensordot_int sa sb fa fb (nat_of_int n), z_np_tensordot sa sb fa fb axa axb, RSumProd)
+          | "tdotx" -> (match rest with
+              | [xa; xb] ->
+                  let axa = getL xa and axb = getL xb in
+                  let norm n l = List.map (fun z -> let v = int_of_z z in if v < 0 then v + n else v) l in
+                  let na = norm la axa and nb = norm lb axb in
+                  let ok = List.for_all (fun v -> v >= 0 && v < la) na && List.for_all (fun v -> v >= 0 && v < lb) nb in
+                  (z_tensordot_axes sa sb fa fb axa axb,
+                   (if ok then z_np_tensordot sa sb fa fb (List.map nat_of_int na) (List.map nat_of_int nb) else None), RSumProd)
+              | _ -> failwith "tdotx typed")
+          | _ -> failwith ("typed op " ^ op)) in
+        let md = model_dtype rt ta tb and sd = spec_dtype rt ta tb in
+        { model = (match m with Ok v -> show_typed_view md den v | Nothing -> "nothing" | Trap -> "trap");
+          spec = (match sp with Some v -> show_typed_view sd den v | None -> "unspecified");
+          dom = posb sa && posb sb && sp <> None && (op <> "matmul" || (la >= 2 && lb >= 2)) }
+    | _ -> failwith "typed");
+  register "typed1" (fun a -> match a with
+    | [o; t; x; off; a1; a2] ->
+        let op = getS o and t = dtype_of (getS t) in
+        let (s, d) = getA x in let f = accessor s d in
+        let off = getI off and ax1 = getI a1 and ax2 = getI a2 in
+        let n = len s in
+        let nz z = let v = int_of_z z in if v < 0 then v + n else v in
+        let n1 = nz ax1 and n2 = nz ax2 in
+        let ok = n1 >= 0 && n1 < n && n2 >= 0 && n2 < n in
+        let is_trace = (op = "trace") in
+        let rt = if is_trace then RTrace else RDiagonal in
+        let sp = if not ok then None
+          else if is_trace then z_np_trace s f off (nat_of_int n1) (nat_of_int n2)
+          else z_np_diagonal s f off (nat_of_int n1) (nat_of_int n2) in
+        let m = if is_trace then z_trace s f off ax1 ax2 else z_diagonal s f off ax1 ax2 in
+        let e = if ok then int_of_z (np_diag_len s off (nat_of_int n1) (nat_of_int n2)) else (-1) in
+        let den = scale_of t in
+        { model = (match m with Ok v -> show_typed_view (model_dtype rt t t) den v | Nothing -> "nothing" | Trap -> "trap");
+          spec = (match sp with Some v -> show_typed_view (spec_dtype rt t t) den v | None -> "unspecified");
+          dom = posb s && sp <> None && (if is_trace then e >= 1 else true) }
+    | _ -> failwith "typed1")
